@@ -1034,7 +1034,10 @@ add("dupColumnsRejected", "Table", ["C12", "C13"], _CORE, "const", [],
                            "raise ValueError(")))
 add("appendExtraRejected", "Table", ["C12"], _CORE, "const", [],
     pattern(lambda t: _has(ast.unparse(func(t, "Molecules.append")),
-                           "feat = pl.concat([self.features, other.features], how='diagonal')",
+                           "other_feat = other.features", "if other_feat.width == 0:",
+                           "~for name, dtype in self.features.schema.items()",
+                           "~pl.Series(name, [None] * other.count(), dtype=dtype)",
+                           "feat = pl.concat([self.features, other_feat], how='diagonal')",
                            "if len(feat.columns) != len(self.features.columns):", "raise ValueError(",
                            "pos = np.concatenate([self.pos, other.pos], axis=0)",
                            "rot = np.concatenate([self.quaternion(), other.quaternion()], axis=0)",
